@@ -19,6 +19,10 @@ NoPad == <<0, 0>>
 
 PathScopes == {<<"global", "-">>, <<"scoped", "app1/ep1">>, <<"scoped", "app1/ep2">>}
 
+PadsFor(ps) ==
+  IF MaxLen >= 4 THEN {<<996, 0>>, <<997, 0>>, <<0, 996>>, <<498, 498>>, <<0, 997>>}
+  ELSE IF ps[1] = "global" THEN {<<996, 0>>, <<997, 0>>, <<0, 996>>} ELSE {<<996, 0>>}
+
 Frames ==
   \* every batch up to MaxLen under the default policy
   { F("P0", ps[1], ps[2], "ok", NoPad, "none", "base", "full", MaxLen) : ps \in PathScopes } \cup
@@ -30,10 +34,8 @@ Frames ==
   \* scopes that must be refused as a whole
   { F(p, "scoped", s, "ok", NoPad, "none", "base", "req", 2) : p \in {"P0", "Ppull_off"}, s \in {"app2/ep1", "app2/ep2", "app9/ep9"} } \cup
   \* 1000 / 1001 items: acceptable items in front of (pad) and behind (tail) the abstract batch of 4
-  { F("P0", ps[1], ps[2], "ok", pad, "none", "base", "pad", 4) :
-      ps \in {<<"global", "-">>, <<"scoped", "app1/ep1">>},
-      pad \in IF MaxLen >= 4 THEN {<<996, 0>>, <<997, 0>>, <<0, 996>>, <<498, 498>>, <<0, 997>>}
-             ELSE IF ps[1] = "global" THEN {<<996, 0>>, <<997, 0>>, <<0, 996>>} ELSE {<<996, 0>>} } \cup
+  UNION { { F("P0", ps[1], ps[2], "ok", pad, "none", "base", "pad", 4) : pad \in PadsFor(ps) } :
+            ps \in {<<"global", "-">>, <<"scoped", "app1/ep1">>} } \cup
   \* near-full queues under both drop policies
   { F("P0", ps[1], ps[2], "ok", NoPad, lim, q, "queue", 4) :
       ps \in {<<"global", "-">>, <<"scoped", "app1/ep1">>}, lim \in {"reject", "drop_oldest"}, q \in {"near_full", "near_full_leased"} }
